@@ -241,6 +241,9 @@ def search(ctx):
     # position whose largest separation straddles 30 largest-radii, in random orientations and member orders
     for i in range(ctx.n(150, 1500)):
         m = int(rng.integers(2, 8))
+        if i % 6 == 5:
+            # the rule knows no limit on the NUMBER of spheres: counts around the solver's array dimension (npd = 20) and beyond
+            m = [20, 19, 21, 8, 12, 16, 25, 40][(i // 6) % 8]
         rmax = float(rng.uniform(0.1, 0.6)) * float(10.0 ** rng.integers(-6, 7) if i % 2 else 1.0)     # any unit of length
         rs = [rmax] + [float(rng.uniform(0.3, 1.0)) * rmax for _ in range(m - 1)]
         target = 30 * rmax * float(rng.choice([0.5, 0.8, 0.95, 0.99, 1.01, 1.05, 1.3]))
